@@ -1,5 +1,5 @@
 """Build of zvbid (ASan+UBSan and TSan) and of the client driver from $VERIF_REPO, keyed by a hash of the sources."""
-import os, glob, hashlib, subprocess, shutil, time, json, fcntl, sys
+import os, re, glob, hashlib, subprocess, shutil, time, json, fcntl, sys
 from concurrent.futures import ThreadPoolExecutor
 
 HERE = os.path.dirname(os.path.abspath(__file__))
@@ -76,7 +76,7 @@ def build():
     try:
         if not os.path.exists(os.path.join(d, '.done')):
             for old in glob.glob(os.path.join(BUILD, 'proxy-*')):
-                if os.path.basename(old).startswith('proxy-run-') or old == d:
+                if not re.fullmatch(r'proxy-[0-9a-f]{16}', os.path.basename(old)) or old == d:
                     continue
                 # keep builds of other repositories (sensitivity worktrees) for an hour
                 try:
